@@ -180,11 +180,14 @@ pub struct Plan {
     pub g9: Option<usize>,
     /// sparse long-field sweep: (field lengths, values, position stride)
     pub g3_long: Option<(Vec<usize>, Vec<u8>, usize)>,
+    /// adjacent-pair sweep: all 65536 byte pairs at a few positions of each field (0 = off,
+    /// 1 = two positions in a 12-byte field, 2 = four positions in 12- and 40-byte fields)
+    pub g10: usize,
 }
 
 impl Plan {
     pub fn empty() -> Plan {
-        Plan { g1: false, g2_all: vec![], g2_small: vec![], g3: vec![], g4_line: 0, g4_hdr: 0, g5: 0, g6: 0, g8: false, lenient: 25, max_field: 300, prefixes: 0, g9: None, g3_long: None }
+        Plan { g1: false, g2_all: vec![], g2_small: vec![], g3: vec![], g4_line: 0, g4_hdr: 0, g5: 0, g6: 0, g8: false, lenient: 25, max_field: 300, prefixes: 0, g9: None, g3_long: None, g10: 0 }
     }
 }
 
@@ -278,6 +281,37 @@ pub fn stream(kind: Kind, plan: &Plan, seed: u64, f: &mut dyn FnMut(&[u8], Tag))
                 }
                 for &v in values {
                     f(&gen::g3_message(kind, field, l, l - 1, v, 0, false), Tag::G3);
+                }
+            }
+        }
+    }
+    if plan.g10 > 0 {
+        let fields: &[gen::Field] = match kind {
+            Kind::Req => &[gen::Field::Target, gen::Field::Method, gen::Field::Name, gen::Field::Value],
+            Kind::Resp => &[gen::Field::Reason, gen::Field::Name, gen::Field::Value],
+            Kind::Hdr => &[gen::Field::Name, gen::Field::Value],
+            Kind::Chunk => &[gen::Field::ChunkExt],
+        };
+        let lens: &[usize] = if plan.g10 >= 2 { &[12, 40] } else { &[12] };
+        for &field in fields {
+            for &l in lens {
+                let poss: Vec<usize> = if plan.g10 >= 2 { vec![0, 5, 7, l - 2] } else { vec![5, l - 2] };
+                for q in poss {
+                    // plain-letter base message with a marker pair, then patch the pair in place
+                    let base = gen::g3_message_v(kind, field, l, usize::MAX, 0, 0, false, 2);
+                    let probe = gen::g3_message_v(kind, field, l, q, 0x00, 0, false, 2);
+                    let at = match base.iter().zip(probe.iter()).position(|(a, b)| a != b) {
+                        Some(p) => p,
+                        None => continue,
+                    };
+                    let mut b = base.clone();
+                    for b1 in 0..=255u8 {
+                        b[at] = b1;
+                        for b2 in 0..=255u8 {
+                            b[at + 1] = b2;
+                            f(&b, Tag::G2);
+                        }
+                    }
                 }
             }
         }
